@@ -117,6 +117,13 @@ def check(ctx, rep, upto=None):
             if h in mac.adts and h != H and any(x['ty'].startswith('core::sync::atomic::Atomic<') for x in nested_fields(mac, h)):
                 statef.append(f['name'])
                 state_ty = h
+    if not cellf:
+        # the cell may be wrapped in a private newtype (`slot: Slot<T>` with unsafe read()/write() helpers, analysed inlined)
+        from .qmodel import nested_fields as _nf
+        for f in fields:
+            h = type_head(f['ty'])
+            if h in mac.adts and h != H and any(x['ty'].startswith('core::cell::UnsafeCell<') for x in _nf(mac, h)):
+                cellf.append(f['name'])
     if len(cellf) != 1 or len(statef) != 1:
         rep.anchor_lost('R0', 'cell/state fields of SingletonHolder (%s/%s)' % (cellf, statef))
         return
@@ -143,6 +150,9 @@ def check(ctx, rep, upto=None):
             st = inner_new[0] if len(inner_new) == 1 else st
         if st is not None and term_callee_is(st, AT + 'new') and evalc(mac, st[2][0])[0] == 'const':
             E = evalc(mac, st[2][0])[2]
+        if cv is not None and not term_callee_is(cv, 'core::cell::UnsafeCell::new'):
+            inner_cell = [y for y in walk(cv) if term_callee_is(y, 'core::cell::UnsafeCell::new')]
+            cv = inner_cell[0] if len(inner_cell) == 1 else cv          # the cell inside its private wrapper
         oknew = E is not None and cv is not None and term_callee_is(cv, 'core::cell::UnsafeCell::new') and cv[2][0][0] == 'adt' and cv[2][0][2] == 'None'
     rep.ob('R4', 'new/initial-state', oknew, m['new'].where(), 'new() = (state: INITIAL=%s, value: None)' % E if oknew else 'new() does not start as (constant state, None)')
     if E is None:
@@ -248,6 +258,20 @@ def check(ctx, rep, upto=None):
             cst = evalc(mac, cst)
             oki = term_callee_is(ld, AT + 'load') and self_field_name(ld[2][0]) == statef and cst[0] == 'const' and (K is None or cst[2] == K) \
                 and ordering(ld[2][1]) in ('Acquire', 'SeqCst')
+    if not oki:
+        # `matches!(self.state.load(Acquire), COMPLETE)`: a switch on the loaded value, true on the COMPLETE edge only
+        for bi_, blk_ in enumerate(ib.blocks):
+            if blk_['term']['k'] != 'switch' or blk_['cleanup']:
+                continue
+            dt_, edges_ = Ti.switch_facts(bi_)
+            d_ = norm(dt_)
+            if term_callee_is(d_, AT + 'load') and self_field_name(d_[2][0]) == statef and ordering(d_[2][1]) in ('Acquire', 'SeqCst'):
+                t_edges = [s_ for s_, labs_ in edges_.items() if any(l_[0] == 'int' and (K is None or str(l_[1]) == str(K)) for l_ in labs_)]
+                f_edges = [s_ for s_ in edges_ if s_ not in t_edges]
+                rt_ = ret_terms(Ti, t_edges) if t_edges else set()
+                rf_ = ret_terms(Ti, f_edges) if f_edges else set()
+                oki = len(t_edges) == 1 and bool(rt_) and all(x[0] == 'const' and str(x[2]).lower() == 'true' for x in rt_) and \
+                    bool(rf_) and all(x[0] == 'const' and str(x[2]).lower() == 'false' for x in rf_)
     rep.ob('R3', 'is_set/acquire-load-of-complete', oki, ib.where(), 'is_set() = (load(state, Acquire|SeqCst) == COMPLETE)' if oki else 'is_set() is not an acquire load compared with COMPLETE')
     if K is None:
         return
@@ -272,6 +296,10 @@ def check(ctx, rep, upto=None):
         if op == 'compare_exchange':
             cas.append((bi, ct))
         elif op == 'store':
+            stores.append((bi, ct))
+        elif op == 'swap' and evalc(mac, ct[2][1])[0] == 'const' and evalc(mac, ct[2][1])[2] == K:
+            # `state.swap(COMPLETE, ..)` used to publish: a store whose old value is returned (the election stays the CAS;
+            # a swap to any other value is still an "other RMW")
             stores.append((bi, ct))
         elif op != 'load':
             others.append((bi, op))
@@ -312,7 +340,7 @@ def check(ctx, rep, upto=None):
     else:
         for bi, ct in pub:
             o = ordering(ct[2][2])
-            if o not in ('Release', 'SeqCst'):
+            if o not in ('Release', 'SeqCst') and not (o == 'AcqRel' and ct[1].endswith('::swap')):
                 okp = False
                 why = 'COMPLETE is published with Ordering::%s: the write of the value is not ordered before the flag, readers may see COMPLETE and a half-written cell' % o
         pubb = set(bi for bi, _ in pub)
@@ -355,6 +383,19 @@ def check(ctx, rep, upto=None):
     allowed = {m['new'].path}
     for n_ in ('set', 'get', 'is_set'):
         allowed |= private_region(mac, m[n_], within_type=H)
+    # methods of a private wrapper type around the cell / the state (Slot::read, Slot::write ..) that only set()/get()/is_set()
+    # and their helpers call were analysed inlined there as well
+    wrappers_ = set(type_head(f['ty']) for f in fields if f['name'] in (cellf, statef) and type_head(f['ty']) in mac.adts)
+    changed_ = True
+    while changed_:
+        changed_ = False
+        for x_ in mac.all_bodies:
+            if x_.path in allowed or not (x_.impl_self and type_head(x_.impl_self) in wrappers_) or x_.impl_trait:
+                continue
+            callers_ = set(y_.path for y_ in mac.all_bodies for _, t_ in y_.calls() if t_.get('resolved') == x_.path)
+            if callers_ and callers_ <= allowed | {m[n_].path for n_ in ('set', 'get', 'is_set', 'new')}:
+                allowed.add(x_.path)
+                changed_ = True
     for n_, ib_, T_ in (('get', gb, Tg), ('is_set', ib, Ti)):
         for bi, t in ib_.calls():
             k = strip_generics(t.get('callee_full', ''))
